@@ -788,6 +788,16 @@ def ring_models(extra=None):
         v = ex.deref(args[0])
         return copy.deepcopy(v)
     m.on(by("core::clone::Clone", "clone"), clone)
+
+    def mem_swap(ex, st, fr, t, a):
+        # core::mem::swap(&mut x, &mut y)
+        if len(a) != 2 or not (isinstance(a[0], Ref) and isinstance(a[1], Ref)):
+            return NotImplemented
+        x, y = copy.deepcopy(ex.deref(a[0])), copy.deepcopy(ex.deref(a[1]))
+        ex.write_ref(a[0], y)
+        ex.write_ref(a[1], x)
+        return Obj(adt="()")
+    m.on(by(None, "swap"), mem_swap)
     def borrow(ex, st, fr, t, a):
         # `&T -> &U`: when T is itself a reference, the result is that inner reference
         r = a[0]
